@@ -366,7 +366,8 @@ int main(int argc, char** argv) {
         Rng rng(args.seed, 0x5eed000000ULL + (uint64_t)q);       // the sequence depends on q only: all chunks cut the same file
         std::vector<int> seq;
         const int len = (int)rng.range(1, L);
-        for (int i = 0; i < len; ++i) seq.push_back((int)rng.range(0, N));
+        // mostly advancing (files with several steps), sometimes a rewind or a rewrite of the same step
+        for (int i = 0; i < len; ++i) seq.push_back(i > 0 && rng.chance(0.75) ? seq.back() + (int)rng.range(1, 2) : (int)rng.range(0, N));
         std::string witness = seqText(seq, false);
 
         // build the file(s) with the library, keeping the model
@@ -479,9 +480,10 @@ int main(int argc, char** argv) {
                 for (size_t i = 0; i < steps.size(); ++i) {
                     const StepContent& sc = contents[st.surv[i].pos];
                     const bool stepComplete = complete || (i + 1 < st.surv.size() && (long)st.surv[i + 1].start <= c);
-                    // two reader paths: on odd offsets the whole step is loaded first (loadData(vector)), then the named
-                    // reads find the arrays that were loaded before the first error and load the others one by one
-                    if (c & 1) {
+                    // two reader paths: on three of four offsets the whole step is loaded first (loadData(vector), one
+                    // file open per step), then the named reads find the arrays that were loaded before the first error
+                    // and load the others one by one; on every fourth offset every array is loaded by its own read
+                    if (c & 3) {
                         rep.count("loadReportStepNumber_calls");
                         try { r.loadReportStepNumber(steps[i]); }
                         catch (const std::exception& e) { rep.count("loadReportStepNumber_refused"); if (stepComplete) viol("complete-prefix-unreadable", "complete step " + std::to_string(steps[i]) + " cannot be loaded: " + std::string(e.what()).substr(0, 200)); }
